@@ -21,6 +21,12 @@ import (
 
 func init() { register("C20", checkC20) }
 
+type failingWriter struct{}
+
+func (failingWriter) Write(p []byte) (int, error) {
+	return 0, fmt.Errorf("destination refuses the write")
+}
+
 func mappedAndFd(path string) (mapped bool, fd bool) {
 	if b, err := os.ReadFile("/proc/self/maps"); err == nil {
 		mapped = strings.Contains(string(b), path)
@@ -70,6 +76,42 @@ func checkC20(c *ctx) {
 	wantS := want.Sx().String()
 	path := zh.TmpPath("ref")
 	must(zap.PersistSegmentBase(sb, path))
+	// the same on a segment file without any document (an empty batch; what a merge in which nothing
+	// survives leaves): the mapping and the descriptor follow the count there too
+	esb, _, err := zh.Build(nil, 1026)
+	must(err)
+	epath := zh.TmpPath("refempty")
+	must(zap.PersistSegmentBase(esb, epath))
+	for n := 1; n <= 5; n += 2 {
+		for _, ops := range refSeqs(n) {
+			s, err := zh.Plugin.Open(epath)
+			must(err)
+			seg := s.(*zap.Segment)
+			tr := ask(c, sx.L(sx.N(zh.ReqRef), sx.Nums(ops)))
+			var names []string
+			for i, o := range ops {
+				var derr error
+				if o == 0 {
+					seg.AddRef()
+					names = append(names, "AddRef")
+				} else if i%2 == 0 {
+					derr = seg.DecRef()
+					names = append(names, "DecRef")
+				} else {
+					derr = seg.Close()
+					names = append(names, "Close")
+				}
+				mp, fd := mappedAndFd(epath)
+				expMapped := tr.L[i].L[1].N == 1
+				if mp != expMapped || fd != expMapped || derr != nil {
+					c.Violation(fmt.Sprintf("C20 sequential history on a freshly opened segment WITHOUT documents (refs = 1)\nafter %v: mapped=%v descriptor open=%v (err %v), model says mapped=%v (refs %d)", names, mp, fd, derr, expMapped, tr.L[i].L[0].N), false)
+					return
+				}
+			}
+			c.Case(fmt.Sprint("empty", ops), len(ops) >= 3)
+			c.Count("empty_segment_histories")
+		}
+	}
 	for n := 1; n <= maxLen; n += 2 {
 		for _, ops := range refSeqs(n) {
 			// the release operation is DecRef or Close (= DecRef): all-DecRef, all-Close, alternating
@@ -133,7 +175,7 @@ func checkC20(c *ctx) {
 	c.Exhaustive = true
 	// histories with readers in between: a full read, a merge taking the segment as input that
 	// completes, one that is abandoned (close channel fired) and one whose output cannot be created
-	useNames := []string{"Read", "MergeOK", "MergeAbandoned", "MergeBadPath", "MergeAllDeleted"}
+	useNames := []string{"Read", "MergeOK", "MergeAbandoned", "MergeBadPath", "MergeAllDeleted", "WriteToFailingWriter"}
 	// the second input of the merges in which every document of the held segment is deleted
 	other, _, err := zh.Build(zh.GenBatch(c.R, zh.RandOpts(c.R, 3, "o")), 1026)
 	must(err)
@@ -152,7 +194,7 @@ func checkC20(c *ctx) {
 			case x < 5 && (cnt > 1 || len(ops) > 4):
 				ops, kinds, cnt = append(ops, 1), append(kinds, c.R.Intn(2)), cnt-1
 			default:
-				ops, kinds = append(ops, 2), append(kinds, c.R.Intn(5))
+				ops, kinds = append(ops, 2), append(kinds, c.R.Intn(6))
 			}
 		}
 		for cnt > 0 {
@@ -227,6 +269,10 @@ func checkC20(c *ctx) {
 						fail = fmt.Sprintf("after %v: merge of a held segment with every document deleted failed: %v", names, err)
 					}
 					os.Remove(out)
+				case 5:
+					if _, err := seg.WriteTo(failingWriter{}); err == nil {
+						fail = fmt.Sprintf("after %v: WriteTo into a writer that fails reported success", names)
+					}
 				case 3:
 					out := filepath.Join(zh.TmpDir(), "no-such-dir", "x.zap")
 					_, _, err := zh.Plugin.Merge([]segment.Segment{seg}, []*roaring.Bitmap{nil}, out, nil, nil)
@@ -296,6 +342,11 @@ func checkC20(c *ctx) {
 			extra := c.R.Intn(3)
 			go func() {
 				defer wg.Done()
+				defer func() {
+					if p := recover(); p != nil {
+						errs <- fmt.Sprintf("PANIC in a holder: %v", p)
+					}
+				}()
 				for e := 0; e < extra; e++ {
 					seg.AddRef()
 				}
@@ -348,6 +399,11 @@ func checkC20(c *ctx) {
 			closeIt := (j+k)%2 == 0
 			go func() {
 				defer wg.Done()
+				defer func() {
+					if p := recover(); p != nil {
+						errc <- fmt.Errorf("PANIC in a holder: %v", p)
+					}
+				}()
 				atomic.AddInt32(&ready, 1)
 				for atomic.LoadInt32(&gate) == 0 {
 					runtime.Gosched()
